@@ -98,7 +98,10 @@ K_VEC_TAO = 'time_as_observations,vector-valued-descriptor'
 K_VEC_TAC = 'time_as_channels,vector-valued-descriptor'
 K_VEC_DF = 'to_df,vector-valued-descriptor'
 K_BIN_PYLIST = 'bin_time,bins-as-python-lists'
-PENDING = {K_VEC_TAO, K_VEC_TAC, K_VEC_DF, K_BIN_PYLIST}
+# after triage: time_as_observations / time_as_channels / bin_time repaired in /repo (6df59f95, c15140b4); to_df with a vector-valued
+# descriptor is recorded as an open finding (a table column cannot hold a 2-D descriptor: design decision), own input class
+REPAIRED |= {K_VEC_TAO, K_VEC_TAC, K_BIN_PYLIST}
+PENDING = {K_VEC_DF}
 
 
 # =====================================================================================================
@@ -1568,7 +1571,7 @@ def _sweeps(run, thorough):
         for case in bin_cases():
             contiguous = all(_is_stretch(b, case['time']) for b in case['bins'])
             bd.check(orc_bin, dict(case, **extra), 'contiguous-bins' if contiguous else 'non-contiguous-bins', function='bin_time')
-    if False:  # pending triage: bin_time,bins-as-python-lists
+    if True:   # repaired in /repo c15140b4 (was pending triage): bin_time,bins-as-python-lists
         for case in bin_cases():
             bd.check(orc_bin, dict(case, bform='list'), K_BIN_PYLIST, function='bin_time')
     bd.done()
@@ -1674,11 +1677,11 @@ def _sweeps(run, thorough):
                 continue
             case = dict(base, ops=ops, last_only=not base.get('twice'))
             if tag in PENDING:
-                if False:  # pending triage: the four classes of PENDING
+                if True:   # recorded as open finding (was pending triage): to_df,vector-valued-descriptor
                     bd.check(orc_history, case, tag, function=_hist_function(ops))
                 continue
             bd.check(orc_history, case, _hist_class(kind, tag), function=_hist_function(ops))
-    if False:  # pending triage: bin_time,bins-as-python-lists
+    if True:   # repaired in /repo c15140b4 (was pending triage): bin_time,bins-as-python-lists
         base = B('temporal', (2, 2, 3), seed=34, tm_extra=False, binform='list')
         for ops, tag in _enumerate(base, 1):
             if tag == K_BIN_PYLIST:
